@@ -15,7 +15,7 @@ from tempest.state_manager import StateManager
 from vf.engine.core import PathCtx, SymBool
 from vf.engine.harness import Obligation
 from vf.engine.real import SymReal
-from vf.engine.arr import NpProxy, RandomStub, patched, sarr
+from vf.engine.arr import NpProxy, RandomStub, patched, patched_attr, sarr
 from vf.engine.util import real, eq, le
 from vf.props.mcmc_common import Callbacks, Draws, exp_as_uf, mcmc_proxy, sym_mode_stats, isinf_model
 
@@ -97,8 +97,10 @@ def make_mutate(kernel, n, d, with_blobs, bounds_kind="hard"):
         mut = mutate_mod.Mutator(state=st, prior_transform=cb.prior_transform, log_likelihood=cb.log_likelihood, pbar=None,
                                  n_particles=n, n_dim=d, n_steps=1, n_max_steps=1, sampler=kernel, periodic=periodic,
                                  reflective=reflective, have_blobs=with_blobs)
-        stub = RandomStub(Draws(ctx), max_calls=3 * n + 2)
-        with exp_as_uf(), patched(mcmc, np=mcmc_proxy(stub)):
+        stub = RandomStub(Draws(ctx), max_calls=(2 if kernel == "tpcn" else 1) * n + 2)
+        noadapt = lambda self, c, mean_accept: None
+        with exp_as_uf(), patched(mcmc, np=mcmc_proxy(stub)), patched_attr(mcmc.TPCNRunner, _adapt_sigma=noadapt), \
+                patched_attr(mcmc.RWMRunner, _adapt_sigma=noadapt):
             mut.run(ms)
         c = st._current
         check_rows(ctx, cb, "rows-coherent-after-mutation", c["u"], c["x"], c["logl"], c["blobs"] if with_blobs else None, n, d)
@@ -143,8 +145,9 @@ def make_mutate(kernel, n, d, with_blobs, bounds_kind="hard"):
                       encodes=[mutate_mod.Mutator.run, mcmc.parallel_mcmc, mcmc.BaseMCMCRunner.run, mcmc.TPCNRunner._propose,
                                mcmc.RWMRunner._propose, mcmc.apply_boundary_conditions, mcmc.check_bounds],
                       bounds=f"one kernel iteration (n_steps=n_max_steps=1), {n} walkers, d={d}, K=1, boundary {bounds_kind}, "
-                             f"<= {3 * n + 2} random calls (bounds proposal redraws)",
-                      stubs=["np.random.* -> symbolic draws", "np.nan_to_num -> identity on reals", "callbacks -> uninterpreted functions"],
+                             f"at most one proposal redraw in total (random-call budget)",
+                      stubs=["np.random.* -> symbolic draws", "np.nan_to_num -> identity on reals", "callbacks -> uninterpreted functions",
+                             "_adapt_sigma -> no-op (step-size adaptation only feeds diagnostics and the number of further steps)"],
                       allow_bound="paths needing more proposal redraws than the draw budget are cut (stated bound)",
                       theory="QF_UFNRA", timeout_ms=20000, max_paths=3000)
 
@@ -320,7 +323,7 @@ def obligations(tier):
     obs = []
     from vf.props.c12 import make_posterior
     if tier == "quick":
-        obs += [make_mutate("rwm", 2, 1, True), make_mutate("tpcn", 2, 1, False), make_mutate("tpcn", 1, 1, True, "periodic"),
+        obs += [make_mutate("rwm", 2, 1, True), make_mutate("tpcn", 1, 1, False), make_mutate("tpcn", 1, 1, True, "periodic"),
                 make_mutate("rwm", 1, 1, False, "reflective"),
                 make_warmup(2, 1, True), make_warmup(3, 1, False),
                 make_resample("mult", 2, (2, 1), True), make_resample("syst", 2, (2, 1), True),
